@@ -78,7 +78,7 @@ CLAIMS = {
              'Lemmas.Cache.all_cons of all 15 interpreter functions - every name resolves exactly as before the block), tag_lookup_calls / '
              'tag_lookup_renders_template / expr_lookup_does_not_call; InstanceDict.__getitem__ is TRANSLATED from /repo on every '
              'run (harness/trans_ns.py -> GenNs.lean) and proved equal to the model\'s instance lookup '
-             '(gen_instancedict_getitem_is_model). Correspondence: results and call traces; oracle: winner '
+             '(gen_instancedict_getitem_is_model), and so is TemplateDict.getitem (gen_templatedict_getitem_is_model). Correspondence: results and call traces; oracle: winner '
              'computed from the documented order over all 128 source subsets x {plain, callable, template} (+ private names), '
              'scope-stack evaluator over random nestings of let/with/in/if/try-except with probes before/inside/after, '
              'name-vs-expression forms, re-entered templates under shadowing blocks',
